@@ -236,8 +236,9 @@ def judge(cmd, vec, labels, res):
         if len(res["files"]) != 1:
             viols.append(V(P + ":main:served:file-set", "argv %r exit 0 with -f but changed files = %r" % (argv, list(res["files"]))))
             return "violation", viols
-        if res["stdout"].strip():
-            viols.append(V(P + ":main:served:stdout-and-file", "argv %r wrote wallet data to stdout although -f was given" % (argv,)))
+        if cli.wallet_tokens(res["stdout"]):
+            # a status line ("saved to ...") is nobody's business; wallet DATA on stdout next to the file is
+            viols.append(V(P + ":main:served:stdout-and-file", "argv %r wrote wallet data (%r) to stdout although -f was given" % (argv, cli.wallet_tokens(res["stdout"])[:2])))
         text = body
     else:
         if res["after"] != res["before"]:
